@@ -279,7 +279,9 @@ func (c *Conn) makeClientHello() (*clientHelloMsg, map[CurveID]tls13KeyShare, er
 
 	if !config.ForceSuites {
 		for _, suiteId := range possibleCipherSuites {
-			for _, suite := range cipherSuites {
+			// Every implemented suite may be offered, not only those of the
+			// upstream table (which lacks e.g. the DHE_RSA suites).
+			for _, suite := range implementedCipherSuites {
 				if suite.id != suiteId {
 					continue
 				}
